@@ -161,6 +161,22 @@ impl<N: Copy> OrderMap<N> {
         self.pos_to_node.remove(&pos);
     }
 
+    /// Transfer the position of node `from` to node `to`, for graphs that
+    /// renumber a node on removal.
+    ///
+    /// Panics if a node index is out of bounds.
+    #[track_caller]
+    pub(super) fn move_node(&mut self, from: N, to: N, graph: impl NodeIndexable<NodeId = N>) {
+        let from_idx = graph.to_index(from);
+        let to_idx = graph.to_index(to);
+        assert!(from_idx < self.node_to_pos.len() && to_idx < self.node_to_pos.len());
+
+        let pos = self.node_to_pos[from_idx];
+        self.node_to_pos[from_idx] = TopologicalPosition::default();
+        self.node_to_pos[to_idx] = pos;
+        self.pos_to_node.insert(pos, to);
+    }
+
     /// Set the position of a node.
     ///
     /// Panics if the node index is out of bounds.
